@@ -79,6 +79,22 @@ PROPS["C07"] = {
     "design_ref": "DESIGN.md 7 (C07)",
 }
 
+PROPS["C16"] = {
+    "engines": {"mod": {"quick": 400, "thorough": 5000}},
+    "rule": "random modules (1-3 functions, every card kind, nesting <= 4, unique leaf contents so cards are distinguishable by value) and edit sequences of get/insert/remove/replace/swap/walk/walkcheck/children/dump "
+            "with valid indices (taken from a shadow module), sibling/one-past/child positions, self/ancestor/descendant swap pairs and invalid indices (wrong function, too deep, empty); "
+            "per-kind child tables are compared through `children` (num_children, iter_children, get_child for i = 0..n+1) on every card reached; non-trivial = at least 3 ops",
+    "trusted_base": ["CardIds are not modelled (the compiler ignores them; cards are compared by content, generators make contents unique)",
+                     "wasm/src/lib.rs only forwards to these methods and is not built offline"],
+    "assumptions": ["'remove undoes insert' is claimed for list slots; on fixed-arity slots insert is documented to replace (then remove returns the inserted card and leaves the placeholder)",
+                    "cards inside submodules have no CardIndex (the API addresses the functions of the module it is called on)"],
+    "partial": "",
+    "technique": "Lean 4 proofs over a lens-style model of card.rs/module.rs (walk soundness+completeness+uniqueness, insert/remove/replace/swap laws, failed edits are no-ops) + differential correspondence and an independent tree-edit oracle",
+    "level_text": "Proved in Lean for all modules and indices: child enumeration, count and lookup agree for every card kind (children_getChild, numChildren_children); walk reports exactly the valid indices, each once, with the card getCard returns (walk_getCard, walk_complete, walk_nodup); insert/get, remove-undoes-insert on list slots, replace-replace, swap-swap, swap_self, swap of an ancestor/invalid index fails, and every failed edit leaves the module unchanged (swap_error_unchanged), with frame lemmas for untouched indices. The model is compared line by line with card.rs/module.rs on generated edit sequences and with an independent generic tree-edit oracle.",
+    "level_note": "Trusted: Lean kernel; model vs card.rs/module.rs as far as the sampled differential run shows (per-kind child numbering is pinned by the children op on every generated card).",
+    "design_ref": "DESIGN.md 7 (C16)",
+}
+
 # properties not claimed yet (kept current; moved into PROPS as their checks land)
 NOT_YET = {
     "C01": "check under construction in this session (see DESIGN.md section 9 for the order of work); not yet claimed",
